@@ -144,6 +144,15 @@ def judge(table, s, via_tex=False):
 
 
 def replay(case):
+    if case.get('table') == 'scope':
+        v, exp, obs = judge_scope(tuple(case['seq']), case['s'])
+        if isinstance(v, tuple):
+            from vp.core import Findings
+            f = Findings()
+            if all(f.is_open(x) for x in v[1]):
+                return {'verdict': 'known', 'fid': v[1][0], 'expected': exp, 'observed': obs, 'detail': ''}
+            v = 'violation'
+        return {'verdict': v, 'expected': exp, 'observed': obs, 'detail': 'category changes in nested groups'}
     if case.get('table') == 'recat':
         v, exp, obs = judge_recat(case['s'], case['k'], tuple(case['change']))
         if isinstance(v, tuple):
@@ -169,6 +178,8 @@ def replay(case):
 def run_block(block):
     if block[0] == 'recat':
         return run_block_recat(block)
+    if block[0] == 'scope':
+        return run_block_scope(block)
     table, prefix, maxlen, sigma, via_tex, min_len, must = block
     rep = core.Report()
     cmap = cat_map(table)
@@ -308,9 +319,78 @@ def run_block_recat(block):
     return rep.close_block()
 
 
+# ---- category changes inside nested groups: after a group closes the table in force before it is back --------------
+SCOPE_CHANGES = [('@', 11), ('%', 12), ('!', 0), ('a', 12), ('~', 11)]
+SCOPE_PROBES = ['x@a!b %c\n~d', '!a@ %\\a~', 'a%b\nc@']
+
+
+def scope_sequences(maxlen):
+    """every well-nested sequence of push / pop / set_i of length <= maxlen (pop only when a group is open)"""
+    ops = ['push', 'pop'] + list(range(len(SCOPE_CHANGES)))
+    out = []
+
+    def rec(seq, depth):
+        out.append(tuple(seq))
+        if len(seq) == maxlen:
+            return
+        for o in ops:
+            if o == 'pop' and depth == 0:
+                continue
+            rec(seq + [o], depth + (1 if o == 'push' else -1 if o == 'pop' else 0))
+    rec([], 0)
+    return out
+
+
+def judge_scope(seq, probe):
+    from plasTeX.Context import Context
+    from plasTeX.Tokenizer import Tokenizer
+    ctx = Context()
+    ctx.push()
+    stack = [dict(DEFAULT)]
+    for o in seq:
+        if o == 'push':
+            ctx.push()
+            stack.append(dict(stack[-1]))
+        elif o == 'pop':
+            ctx.pop()
+            stack.pop()
+        else:
+            ch, code = SCOPE_CHANGES[o]
+            ctx.catcode(ch, code)
+            stack[-1][ch] = code
+    obs, ok = observe(probe, ctx)
+    for dev in [0] + sorted(R.DEV_NAMES) + [a | b for a, b in itertools.combinations(sorted(R.DEV_NAMES), 2)]:
+        exp = expected(probe, stack[-1], dev)
+        if obs == exp:
+            return ('ok' if dev == 0 else ('known', [R.DEV_NAMES[x] for x in R.DEV_NAMES if x & dev])), expected(probe, stack[-1], 0), obs
+    return 'violation', expected(probe, stack[-1], 0), obs
+
+
+def run_block_scope(block):
+    _, seqs = block
+    rep = core.Report()
+    for seq in seqs:
+        for probe in SCOPE_PROBES:
+            v, exp, obs = judge_scope(seq, probe)
+            rep.case(key=('scope', seq, probe), nontrivial=any(isinstance(o, int) for o in seq), outcome=('scope', repr(obs)))
+            rep.count('scoped_changes')
+            case = {'table': 'scope', 'seq': list(seq), 's': probe}
+            if v == 'ok':
+                continue
+            if isinstance(v, tuple):
+                for f in v[1]:
+                    rep.known_finding(f, case, 'category changes in nested groups %r' % (seq,))
+            else:
+                rep.violation(case, exp, obs, 'category changes in nested groups: %r (set_i = %r)' % (seq, SCOPE_CHANGES))
+    return rep.close_block()
+
+
 def run(tier, seed, rep):
     quick = tier == 'quick'
     blocks = []
+    seqs = scope_sequences(5 if quick else 7)
+    for ch in core.chunks(seqs, 400):
+        blocks.append(('scope', ch))
 
     def add(table, sigma, maxlen, via_tex=False, prefixes=None, min_len=0, must=''):
         if prefixes is None:
